@@ -50,6 +50,12 @@ def scenarios(ctx, rend):
         # a script that handles the interrupt signal itself runs its own shutdown path, as it does under vm.Execute
         ("sigint-self", "os = import(\"os\")\nsignal = import(\"os/signal\")\ntime = import(\"time\")\nc = make(chan os.Signal, 1)\nsignal.Notify(c, os.Interrupt)\nprintln(\"serving\")\n"
                         "p, err = os.FindProcess(os.Getpid())\np.Signal(os.Interrupt)\ns = <-c\nprintln(\"got\", s)\ntime.Sleep(200000000)\nprintln(\"clean shutdown\")"),
+        # a run that succeeds is a success whatever VALUE its last statement leaves behind (an error value, a list with a nil, false)
+        ("last-value-caught-error", "println(1)\ntry { throw \"x\" } catch e { e }"), ("last-value-errors-new", "errors = import(\"errors\")\nprintln(1)\nerrors.New(\"boom\")"),
+        ("last-value-go-error", "os = import(\"os\")\nos.Remove(\"/nonexistent-dir-zz/file\")"), ("last-value-pair", "os = import(\"os\")\nos.Open(\"/nonexistent-dir-zz/file\")"),
+        ("last-value-false", "println(1)\nfalse"), ("last-value-nil", "nil"), ("last-value-func", "func f() { throw \"never called\" }\nf"),
+        # -e with an empty source executes the empty program
+        ("empty-source", ""), ("blank-source", " \n"),
         ("div-zero", "println(1 % 0)"), ("deep-error", "func f() { return g() }\nfunc g() { throw \"deep\" }\nprintln(0)\nf()"),
     ]
     scripts += [("sp-" + n, s) for n, s in special]
@@ -68,13 +74,13 @@ def scenarios(ctx, rend):
         for rel in ("sub", "dot"):
             out.append({"id": "%s-rel-%s" % (sid, rel), "mode": "file", "src": src, "args": ["x1"], "readable": True, "rel": rel})
     for k in range(3):
-        for how in ("missing", "dir", "perm"):
+        for how in ("missing", "dir", "perm", "empty"):
             out.append({"id": "unreadable-%s-%d" % (how, k), "mode": "file", "src": "println(1)", "args": ["a"] * k, "readable": False, "unread": how})
     return out
 
 
 def run(ctx):
-    ctx.assumptions += ["interactive mode, -e \"\" and the text of the diagnostic line are not asserted", "stdout is compared as: starts with the library run's output, then exactly 0 or 1 further line"]
+    ctx.assumptions += ["interactive mode and the text of the diagnostic line are not asserted", "stdout is compared as: starts with the library run's output, then exactly 0 or 1 further line"]
     r = vlib.run_tlc(ctx, "AnkoCli", "MC_AnkoCli.cfg", workers=1, timeout=300, want_lines=False)
     vlib.tlc_ok(ctx, r, "AnkoCli")
     binp = vlib.build_harness(ctx, "cliharness")
